@@ -526,7 +526,9 @@ func truncWhere(l layout, n, total int) string {
 
 // boundaryTruncs: every length within +-17 of every header-line end and every
 // segment end.
-func boundaryTruncs(d []byte, l layout) []Mut {
+func boundaryTruncs(d []byte, l layout) []Mut { return boundaryTruncsR(d, l, 17) }
+
+func boundaryTruncsR(d []byte, l layout, radius int) []Mut {
 	bs := append([]int{}, l.lineEnds...)
 	for _, s := range l.segs {
 		bs = append(bs, s[1])
@@ -535,8 +537,8 @@ func boundaryTruncs(d []byte, l layout) []Mut {
 	seen := map[int]bool{}
 	var ns []int
 	for _, b := range bs {
-		for n := b - 17; n <= b+17; n++ {
-			if n >= 0 && n <= len(d) && !seen[n] {
+		for n := b - radius; n <= b+radius; n++ {
+			if n >= 0 && n <= len(d) && !seen[n] && (n >= b-radius && n <= b+radius) {
 				seen[n] = true
 				ns = append(ns, n)
 			}
@@ -600,9 +602,23 @@ func splices(b *built) []Mut {
 // pairAlphabet is the mutation alphabet of the compound space, computed on
 // the bytes at hand: truncations around every boundary, the bit-flip classes,
 // the segment operations.
-func pairAlphabet(d []byte) []Mut {
+func pairAlphabet(d []byte, radius int) []Mut {
 	l := layoutOf(d)
-	out := boundaryTruncs(d, l)
+	out := boundaryTruncsR(d, l, radius)
+	if radius < 17 { // plus the far ends of the +-17 neighbourhood (one byte past a whole tag)
+		for _, m := range boundaryTruncs(d, l) {
+			for _, b := range append(append([]int{}, l.lineEnds...), len(d)) {
+				if m.A == b-17 || m.A == b-16 || m.A == b+16 || m.A == b+17 {
+					out = append(out, m)
+				}
+			}
+			for _, sg := range l.segs {
+				if m.A == sg[1]-17 || m.A == sg[1]-16 || m.A == sg[1]+16 || m.A == sg[1]+17 {
+					out = append(out, m)
+				}
+			}
+		}
+	}
 	out = append(out, classFlips(d, l)...)
 	return append(out, segOps(l)...)
 }
@@ -623,8 +639,16 @@ type Case struct {
 	// soon as Decrypt has returned: "" nothing, "zero" clears it, "other-key"
 	// overwrites it with another document's file key. WipeLate: it yields once
 	// (runtime.Gosched) before doing so.
-	Wipe     string `json:"caller_wipes_key,omitempty"`
-	WipeLate bool   `json:"wipe_after_yield,omitempty"`
+	// Stall: the source answers (0, nil) StallN times in a row when its read
+	// position reaches StallAt, then delivers the rest - or, with StallFail,
+	// fails. EncSide: the fault / stall is on the plaintext source of kit's
+	// Encrypt (the stream judged is Encrypt's).
+	StallAt   int    `json:"stall_at,omitempty"`
+	StallN    int    `json:"stall_reads,omitempty"`
+	StallFail bool   `json:"stall_then_fail,omitempty"`
+	EncSide   bool   `json:"encrypt_side,omitempty"`
+	Wipe      string `json:"caller_wipes_key,omitempty"`
+	WipeLate  bool   `json:"wipe_after_yield,omitempty"`
 	// Seq: a two-document sequence (see sequence_test.go); the other fields
 	// except Cipher and Len are unused then.
 	Seq *Seq `json:"sequence,omitempty"`
@@ -684,7 +708,7 @@ func judge(c *Case, orig *built, mutated []byte, expect, out []byte, err error) 
 	// contract of package errors, io.EOF: the source ended there. It is judged
 	// like a truncation at that point (prefix rule, clean EOF only after the
 	// whole plaintext), not like a failure of the source.
-	fault := c.FailAt >= 0 && !errors.Is(faultErrs[c.FailErr], io.EOF)
+	fault := (c.FailAt >= 0 || c.StallFail) && !errors.Is(faultErrs[c.FailErr], io.EOF)
 	var class, what string
 	switch {
 	case errors.Is(err, encenv.ErrHang):
@@ -699,8 +723,11 @@ func judge(c *Case, orig *built, mutated []byte, expect, out []byte, err error) 
 		class, what = "shortened-message-ends-in-clean-EOF", fmt.Sprintf("the stream ended with io.EOF after %d of %d plaintext bytes", len(out), len(expect))
 	case fault && err == nil:
 		class, what = "source-fault-swallowed", "the source reader failed but the stream ended with io.EOF"
+	case c.StallN > 0 && !c.StallFail && err != nil:
+		// a source may answer (0, nil) for a while: the document is intact and must be served
+		class, what = "stalled-source-document-rejected", fmt.Sprintf("the source answered (0, nil) %d times in a row at offset %d and then delivered the rest, the stream failed with %v after %d of %d bytes", c.StallN, c.StallAt, err, len(out), len(expect))
 	default:
-		return verdict{trivial: bytes.Equal(mutated, orig.doc) && c.Unwrap == "" && c.FailAt < 0, accepted: err == nil}
+		return verdict{trivial: bytes.Equal(mutated, orig.doc) && c.Unwrap == "" && c.FailAt < 0 && c.StallN == 0, accepted: err == nil}
 	}
 	// identity of the finding: the outcome class and the family of the last
 	// mutation; three shapes get a name of their own
@@ -725,6 +752,9 @@ func judge(c *Case, orig *built, mutated []byte, expect, out []byte, err error) 
 	}
 	if c.Wipe != "" {
 		family = "caller-wipes-key-after-Decrypt-returned"
+	}
+	if c.StallN > 0 {
+		family = "source-stalls"
 	}
 	if c.FailAt >= 0 {
 		family = "source-fault"
@@ -754,6 +784,7 @@ func judge(c *Case, orig *built, mutated []byte, expect, out []byte, err error) 
 func decryptWithKit(c *Case, d []byte, wfk []byte) ([]byte, error, int) {
 	src := encenv.NewSource(d)
 	src.Chunk, src.FailAt, src.FailDat, src.FailErr = c.Chunk, c.FailAt, c.FailDat, faultErrs[c.FailErr]
+	src.StallAt, src.StallN, src.StallFail = c.StallAt, c.StallN, c.StallFail
 	inner := unwrapFn(c.Unwrap, wfk)
 	var handed []byte
 	var after func()
@@ -782,6 +813,34 @@ func decryptWithKit(c *Case, d []byte, wfk []byte) ([]byte, error, int) {
 	}
 	out, err := (&encenv.Consumer{}).ReadAll(stream, len(d))
 	return out, err, src.Calls
+}
+
+// encryptSide runs kit's Encrypt over a failing or stalling plaintext source:
+// a failure must end Encrypt's stream in an error (a document that looks
+// complete must not come out), a stall followed by the rest must be served.
+func encryptSide(c *Case) verdict {
+	p := encenv.Pattern(c.Len, 0x33)
+	src := encenv.NewSource(p)
+	src.Chunk, src.FailAt, src.FailDat, src.FailErr = c.Chunk, c.FailAt, c.FailDat, faultErrs[c.FailErr]
+	src.StallAt, src.StallN, src.StallFail = c.StallAt, c.StallN, c.StallFail
+	cp := []v1.Cipher{"", v1.CipherAESGCM, v1.CipherChaCha20Poly1305}[c.Cipher]
+	stream, err := encenv.KitEncrypt(src, v1.EncryptOptions{WrapKeyFn: kw.WrapFn(keyName), Algorithm: v1.KeyAlgorithm(kw.Name), KeyName: keyName, Cipher: &cp})
+	var doc []byte
+	if err == nil {
+		doc, err = (&encenv.Consumer{}).ReadAll(stream, c.Len+1024)
+	}
+	fault := c.FailAt >= 0 || c.StallFail
+	switch {
+	case fault && err == nil:
+		return verdict{class: "source-fault-swallowed", key: "source-fault-swallowed:encrypt-side", msg: fmt.Sprintf("the plaintext source failed, Encrypt's stream ended with io.EOF after %d bytes", len(doc))}
+	case !fault && err != nil:
+		return verdict{class: "stalled-source-document-rejected", key: "stalled-source-document-rejected:encrypt-side", msg: fmt.Sprintf("the plaintext source answered (0, nil) %d times in a row and then went on; Encrypt's stream failed: %v", c.StallN, err)}
+	case !fault:
+		if got, derr := encv1ref.Decrypt(doc, "", kw.RefUnwrapFn(keyName)); derr != nil || !bytes.Equal(got, p) {
+			return verdict{class: "stalled-source-document-rejected", key: "stalled-source-shortens-the-document:encrypt-side", msg: fmt.Sprintf("the plaintext source answered (0, nil) %d times in a row at offset %d and then went on; the document decrypts to %d of %d bytes (%v)", c.StallN, c.StallAt, len(got), len(p), derr)}
+		}
+	}
+	return verdict{}
 }
 
 // expectation is the "original plaintext" the oracle compares with. It is the
@@ -873,6 +932,12 @@ func run(r *enumx.Run, replay *enumx.ReplayCase) {
 			}
 			return
 		}
+		if c.EncSide {
+			if v := encryptSide(&c); v.class != "" {
+				r.Violation(v.key, fmt.Sprintf("%s: %s\ncase: %s", v.class, v.msg, c.String()), &c)
+			}
+			return
+		}
 		if c.Seq != nil {
 			if v := runSeq(&c); v.class != "" {
 				r.Violation(v.key, fmt.Sprintf("%s: %s\ncase: %s", v.class, v.msg, c.String()), &c)
@@ -892,7 +957,7 @@ func run(r *enumx.Run, replay *enumx.ReplayCase) {
 		}
 		return
 	}
-	r.Rule("each evaluation gives one mutated document (or one faulty source) to kit's Decrypt and reads the stream to its end; oracle: the bytes read before the first error are a prefix of the original plaintext, and the stream ends in a non-EOF error unless they are the whole plaintext; a source fault always ends in an error. Documents: reference-built, 2 ciphers x plaintext lengths {0,1,40,65536,65537,131077}. Single mutations: every bit of every byte (3 small documents) / every bit of the first, last-content and line-feed byte of each header line and of the first and last byte of each segment body and tag (large); truncation to every length (small) / within +-17 of every header-line and segment end (large); extension by 1,16,17,65552 bytes (zeros, copy of the tail); segment delete/duplicate/swap/move-last-forward/append; splice of every segment of donor documents (same key+prefix, same key other prefix, other key; all six lengths) over every segment; unwrap returning a wrong 32-byte key, a 16-byte key, nothing, an error; forged all-zero-key documents with stale or recomputed MAC; documents with an unwrappable wrapped key whose MAC and segments are made under a key anybody can derive from the clear-text header (sha256 of the wrapped key / manifest / first two lines / nonce prefix / key name / scheme name, the wrapped key or nonce prefix cut or padded to 32 bytes, the original MAC bytes, all-0xFF), under a working and under a failing vault; ten edits of the text header (whitespace, member order, key name, cipher id, nonce prefix, wrapped key, extra member, MAC padding bits, MAC under the zero key, CRLF). Compound: all ordered pairs over {boundary truncations, bit-flip classes, segment operations} on the two-segment document, the second mutation taken from the alphabet of the already mutated bytes. Faults: sticky non-EOF source error at every Read index, with and without data on the failing call, under default and 1-byte chunking (1-byte chunking on the large documents: quick takes the indexes within +-17 of every header-line, tag and segment boundary; thorough takes every index up to the one-full-segment document and the boundary neighbourhoods plus every 16th index of the two- and three-segment documents). Caller memory: the caller zeroes / overwrites the slice its unwrap function returned right after Decrypt returns (immediately or after one yield; sequential, GOMAXPROCS(1)) on pristine documents and on genuine headers followed by payloads sealed under the zero key / the other key. Two-document sequences: every ordered pair (first Decrypt: own or attacker's document (other file key, same nonce prefix and cipher) intact, broken in each segment, truncated, segment-operated, read to the end / abandoned unread / read partially then dropped; second Decrypt: the pristine document and its tampered variants incl. the genuine header followed by the attacker's payload or segments) must be judged by the oracle, and come out, exactly as the second document run alone (each on fresh nonce prefixes, so that no state is shared by construction). Randomness: Encrypt under a crypto/rand.Reader that fails at its k-th Read, returns short reads or (0,nil) once must return an error or seal under a file key without a run of 16 zero bytes and a nonce prefix that is not all-zero; 460 (thorough 2000) consecutive Encrypts per cipher must use pairwise distinct file keys and nonce prefixes, none degenerate. A case is trivial when the mutation leaves the bytes unchanged.")
+	r.Rule("each evaluation gives one mutated document (or one faulty source) to kit's Decrypt and reads the stream to its end; oracle: the bytes read before the first error are a prefix of the original plaintext, and the stream ends in a non-EOF error unless they are the whole plaintext; a source fault always ends in an error. Documents: reference-built, 2 ciphers x plaintext lengths {0,1,40,65536,65537,131077}. Single mutations: every bit of every byte (3 small documents) / every bit of the first, last-content and line-feed byte of each header line and of the first and last byte of each segment body and tag (large); truncation to every length (small) / within +-17 of every header-line and segment end (large); extension by 1,16,17,65552 bytes (zeros, copy of the tail); segment delete/duplicate/swap/move-last-forward/append; splice of every segment of donor documents (same key+prefix, same key other prefix, other key; all six lengths) over every segment; unwrap returning a wrong 32-byte key, a 16-byte key, nothing, an error; forged all-zero-key documents with stale or recomputed MAC; documents with an unwrappable wrapped key whose MAC and segments are made under a key anybody can derive from the clear-text header (sha256 of the wrapped key / manifest / first two lines / nonce prefix / key name / scheme name, the wrapped key or nonce prefix cut or padded to 32 bytes, the original MAC bytes, all-0xFF), under a working and under a failing vault; ten edits of the text header (whitespace, member order, key name, cipher id, nonce prefix, wrapped key, extra member, MAC padding bits, MAC under the zero key, CRLF). Compound: all ordered pairs over {boundary truncations, bit-flip classes, segment operations} on the two-segment document, the second mutation taken from the alphabet of the already mutated bytes. Faults: sticky non-EOF source error at every Read index, with and without data on the failing call, under default and 1-byte chunking (1-byte chunking on the large documents: quick takes the indexes within +-17 of every header-line, tag and segment boundary; thorough takes every index up to the one-full-segment document and the boundary neighbourhoods plus every 16th index of the two- and three-segment documents). Caller memory: the caller zeroes / overwrites the slice its unwrap function returned right after Decrypt returns (immediately or after one yield; sequential, GOMAXPROCS(1)) on pristine documents and on genuine headers followed by payloads sealed under the zero key / the other key. Two-document sequences: every ordered pair (first Decrypt: own or attacker's document (other file key, same nonce prefix and cipher) intact, broken in each segment, truncated, segment-operated, read to the end / abandoned unread / read partially then dropped; second Decrypt: the pristine document and its tampered variants incl. the genuine header followed by the attacker's payload or segments) must be judged by the oracle, and come out, exactly as the second document run alone (each on fresh nonce prefixes, so that no state is shared by construction). Randomness: Encrypt under a crypto/rand.Reader that fails at its k-th Read, returns short reads or (0,nil) once must return an error or seal under a file key without a run of 16 zero bytes and a nonce prefix that is not all-zero; 460 (thorough 2000) consecutive Encrypts per cipher must use pairwise distinct file keys and nonce prefixes, none degenerate. Stalled sources: N in {1,99,100,101,300} consecutive (0,nil) reads right after the header, in the middle and at the end of every segment and after the last byte, then the rest (must be served in full) or a failure (must surface). Encrypt side: the same fault and stall styles on the plaintext source of kit's Encrypt. A case is trivial when the mutation leaves the bytes unchanged.")
 
 	t0 := time.Now()
 	lap := func(name string) {
@@ -998,43 +1063,91 @@ func run(r *enumx.Run, replay *enumx.ReplayCase) {
 	r.Sample(&Case{Cipher: 1, Len: 40, Muts: []Mut{{Op: "flip", A: 100, B: 3, Where: "manifest"}}, FailAt: -1})
 	r.Sample(&Case{Cipher: 2, Len: 131077, Muts: []Mut{{Op: "splice", A: 1, B: 1, C: 1, L: 65537, Where: "same-key-same-prefix"}}, FailAt: -1})
 
-	// ---- P: ordered pairs on the two-segment document
-	var pairCount int64
-	items = nil
-	for cph := 1; cph <= 2; cph++ {
-		b := getDoc(0, cph, 65537)
-		for _, m1 := range pairAlphabet(b.doc) {
-			cph, m1 := cph, m1
-			items = append(items, func() {
-				c1 := &Case{Cipher: cph, Len: 65537, Muts: []Mut{m1}, FailAt: -1}
-				d1, orig, ok := mutate(c1)
-				if !ok {
-					return
+	// ---- S: stalled sources and Encrypt-side faults (cheap, run early)
+	{
+		var scases []*Case
+		stallDocs := []int{40, 65537}
+		if r.Thorough() {
+			stallDocs = docLens
+		}
+		for cph := 1; cph <= 2; cph++ {
+			for _, n := range stallDocs {
+				b := getDoc(0, cph, n)
+				l := layoutOf(b.doc)
+				at := []int{l.hdr, len(b.doc)}
+				for _, sg := range l.segs {
+					at = append(at, (sg[0]+sg[1])/2, sg[1])
 				}
-				var k int64
-				for _, m2 := range pairAlphabet(d1) {
-					if r.Expired() {
-						r.Incomplete("pairs: a subtree was cut by the budget")
-						return
-					}
-					d2, ok := apply(d1, m2, orig, nil)
-					if !ok {
+				sort.Ints(at)
+				for i, a := range at {
+					if i > 0 && a == at[i-1] {
 						continue
 					}
-					check(&Case{Cipher: cph, Len: 65537, Muts: []Mut{m1, m2}, FailAt: -1}, orig, d2)
-					k++
+					for _, sn := range []int{1, 99, 100, 101, 300} {
+						for _, fl := range []bool{false, true} {
+							scases = append(scases, &Case{Cipher: cph, Len: n, FailAt: -1, StallAt: a, StallN: sn, StallFail: fl})
+						}
+					}
 				}
-				cmu.Lock()
-				pairCount += k
-				cmu.Unlock()
-			})
+			}
 		}
+		done := r.Parallel(len(scases), func(i int) {
+			check(scases[i], getDoc(0, scases[i].Cipher, scases[i].Len), getDoc(0, scases[i].Cipher, scases[i].Len).doc)
+		})
+		if done == len(scases) {
+			r.Space(fmt.Sprintf("stalled sources: %d runs = documents %v x 2 ciphers x stall right after the header / in the middle and at the end of every segment / after the last byte x {1, 99, 100, 101, 300} consecutive (0,nil) reads x {the rest follows, the source then fails}", len(scases), stallDocs))
+		} else {
+			r.Incomplete(fmt.Sprintf("stalled sources: %d of %d", done, len(scases)))
+		}
+		r.Sample(scases[len(scases)/2])
+
+		// Encrypt side: a failing or stalling plaintext source must end Encrypt's stream in an error / be served
+		var ecases []*Case
+		for cph := 1; cph <= 2; cph++ {
+			for _, n := range []int{1, 40, 65537} {
+				for _, chunk := range []int{0, 16} {
+					// the number of Reads of the fault-free run: a fault at a later index never fires
+					dry := encenv.NewSource(encenv.Pattern(n, 0x33))
+					dry.Chunk = chunk
+					cp := []v1.Cipher{"", v1.CipherAESGCM, v1.CipherChaCha20Poly1305}[cph]
+					if st, err := encenv.KitEncrypt(dry, v1.EncryptOptions{WrapKeyFn: kw.WrapFn(keyName), Algorithm: v1.KeyAlgorithm(kw.Name), KeyName: keyName, Cipher: &cp}); err == nil {
+						(&encenv.Consumer{}).ReadAll(st, n+1024)
+					}
+					reads := dry.Calls
+					if reads > 40 {
+						reads = 40
+					}
+					for i := 0; i < reads; i++ {
+						for _, dat := range []bool{false, true} {
+							for _, en := range []string{"", "unexpected-eof"} {
+								ecases = append(ecases, &Case{Cipher: cph, Len: n, Chunk: chunk, FailAt: i, FailDat: dat, FailErr: en, EncSide: true})
+							}
+						}
+					}
+				}
+				for _, a := range []int{0, n / 2, n} {
+					for _, sn := range []int{1, 100, 300} {
+						for _, fl := range []bool{false, true} {
+							ecases = append(ecases, &Case{Cipher: cph, Len: n, FailAt: -1, StallAt: a, StallN: sn, StallFail: fl, EncSide: true})
+						}
+					}
+				}
+			}
+		}
+		done = r.Parallel(len(ecases), func(i int) {
+			c := ecases[i]
+			r.Count(1, 1)
+			if v := encryptSide(c); v.class != "" {
+				r.Violation(v.key, fmt.Sprintf("%s: %s\ncase: %s", v.class, v.msg, c.String()), c)
+			}
+		})
+		if done == len(ecases) {
+			r.Space(fmt.Sprintf("Encrypt-side source faults and stalls: %d runs over plaintexts of 1, 40, 65537 bytes", len(ecases)))
+		} else {
+			r.Incomplete(fmt.Sprintf("Encrypt-side source faults: %d of %d", done, len(ecases)))
+		}
+		lap("stalls-and-encrypt-side")
 	}
-	nFirst := len(items)
-	runItems("pairs", items, func() string {
-		return fmt.Sprintf("compound: %d ordered pairs (%d first mutations, both ciphers) on the two-segment document", pairCount, nFirst)
-	})
-	r.Sample(&Case{Cipher: 1, Len: 65537, Muts: []Mut{{Op: "segswap", A: 0, B: 1}, {Op: "trunc", A: 65700, Where: "inside-segment"}}, FailAt: -1})
 
 	// ---- W: caller memory. The caller zeroes (or overwrites with another
 	// document's file key) the slice its unwrap function returned, as the first
@@ -1105,25 +1218,6 @@ func run(r *enumx.Run, replay *enumx.ReplayCase) {
 		r.Space(fmt.Sprintf("consecutive Encrypts: %d tiny documents per cipher in a row in one process: file keys (as the wrap function sees them) and nonce prefixes pairwise distinct, no run of 12 zero bytes in a key, no all-zero prefix, each document decrypts", many))
 		r.Sample(&Case{Cipher: 1, Len: 5, FailAt: -1, Rand: &RandFault{Mode: "fail", K: 1, Max: 16, Docs: 4}})
 		lap("randomness")
-	}
-
-	// ---- Q: two-document sequences (sequence_test.go)
-	{
-		seqs := enumSequences()
-		done := r.Parallel(len(seqs), func(i int) {
-			v := runSeq(seqs[i])
-			r.Count(1, 1)
-			if v.class != "" {
-				r.Violation(v.key, fmt.Sprintf("%s: %s\ncase: %s", v.class, v.msg, seqs[i].String()), seqs[i])
-			}
-		})
-		if done == len(seqs) {
-			r.Space(fmt.Sprintf("two-document sequences: %d ordered pairs (first Decrypt x second Decrypt) over the two- and three-segment documents, both ciphers; every pair and every reference run on nonce prefixes of its own", len(seqs)))
-		} else {
-			r.Incomplete(fmt.Sprintf("two-document sequences: %d of %d", done, len(seqs)))
-		}
-		r.Sample(seqs[len(seqs)/3])
-		lap("sequences")
 	}
 
 	// ---- F: source faults
@@ -1250,6 +1344,69 @@ func run(r *enumx.Run, replay *enumx.ReplayCase) {
 	})
 	r.Sample(&Case{Cipher: 1, Len: 65537, Chunk: 1, FailAt: 65750, FailDat: true})
 	r.Sample(&Case{Cipher: 2, Len: 65536, Chunk: 179, FailAt: 1, FailErr: "wrapped-unexpected-eof"})
+
+	// ---- Q: two-document sequences (sequence_test.go)
+	{
+		seqs := enumSequences()
+		done := r.Parallel(len(seqs), func(i int) {
+			v := runSeq(seqs[i])
+			r.Count(1, 1)
+			if v.class != "" {
+				r.Violation(v.key, fmt.Sprintf("%s: %s\ncase: %s", v.class, v.msg, seqs[i].String()), seqs[i])
+			}
+		})
+		if done == len(seqs) {
+			r.Space(fmt.Sprintf("two-document sequences: %d ordered pairs (first Decrypt x second Decrypt) over the two- and three-segment documents, both ciphers; every pair and every reference run on nonce prefixes of its own", len(seqs)))
+		} else {
+			r.Incomplete(fmt.Sprintf("two-document sequences: %d of %d", done, len(seqs)))
+		}
+		r.Sample(seqs[len(seqs)/3])
+		lap("sequences")
+	}
+
+	// ---- P: ordered pairs on the two-segment document
+	// (run last: it is the largest family; quick takes truncations within +-2 of every
+	// boundary plus the ends of the +-17 neighbourhood, thorough the whole +-17)
+	pairRadius := 2
+	if r.Thorough() {
+		pairRadius = 17
+	}
+	var pairCount int64
+	items = nil
+	for cph := 1; cph <= 2; cph++ {
+		b := getDoc(0, cph, 65537)
+		for _, m1 := range pairAlphabet(b.doc, pairRadius) {
+			cph, m1 := cph, m1
+			items = append(items, func() {
+				c1 := &Case{Cipher: cph, Len: 65537, Muts: []Mut{m1}, FailAt: -1}
+				d1, orig, ok := mutate(c1)
+				if !ok {
+					return
+				}
+				var k int64
+				for _, m2 := range pairAlphabet(d1, pairRadius) {
+					if r.Expired() {
+						r.Incomplete("pairs: a subtree was cut by the budget")
+						return
+					}
+					d2, ok := apply(d1, m2, orig, nil)
+					if !ok {
+						continue
+					}
+					check(&Case{Cipher: cph, Len: 65537, Muts: []Mut{m1, m2}, FailAt: -1}, orig, d2)
+					k++
+				}
+				cmu.Lock()
+				pairCount += k
+				cmu.Unlock()
+			})
+		}
+	}
+	nFirst := len(items)
+	runItems("pairs", items, func() string {
+		return fmt.Sprintf("compound: %d ordered pairs (%d first mutations, both ciphers; truncation radius %d) on the two-segment document", pairCount, nFirst, pairRadius)
+	})
+	r.Sample(&Case{Cipher: 1, Len: 65537, Muts: []Mut{{Op: "segswap", A: 0, B: 1}, {Op: "trunc", A: 65700, Where: "inside-segment"}}, FailAt: -1})
 
 	r.Set("cases_leaving_the_bytes_unchanged", identical)
 	r.Set("changed_documents_that_still_yield_the_whole_plaintext", intact)
